@@ -182,6 +182,6 @@ pub fn subs() -> Vec<Box<dyn Sub>> {
             enum_exhaustive: false,
             eval: eval_tag,
         }),
-        Box::new(super::fuzzsub::FuzzSub { target: "fuzz_hdr", name: "fuzz-hdr", runs: 1_600_000, max_len: 1024 }),
+        Box::new(super::fuzzsub::FuzzSub { target: "fuzz_hdr", name: "fuzz-hdr", runs: 1_600_000, quick_runs: 30_000, max_len: 1024 }),
     ]
 }
